@@ -38,7 +38,21 @@ def run_case(darsia, rng, tid, c):
     shape, h = tuple(c["shape"]), c["h"]
     grid = darsia.Grid(shape, [float(x) for x in h])
     a1, a2 = random_masses(random.Random(c["mseed"]), shape, c["mass"])
+    idt = c.get("imgdtype", "float64")
+    if idt != "float64":
+        # images as they come from a camera / a file: integer (or float32) pixels carrying integer masses of equal total
+        a1 = np.round(a1)
+        a2 = np.round(a2)
+        d = int(a1.sum() - a2.sum())
+        j = int(np.argmax(a2 if d < 0 else a1)) if d < 0 else int(np.argmax(a2))
+        a2.ravel()[j] += d
+        if a2.min() < 0:
+            a2.ravel()[j] -= d
+            a1.ravel()[int(np.argmax(a1))] -= d
     img1, img2 = make_images(darsia, shape, h, a1, a2)
+    if idt != "float64":
+        img1.img = img1.img.astype(idt)
+        img2.img = img2.img.astype(idt)
     opts = dict(c["opts"])
     opts["l1_mode"] = getattr(darsia.L1Mode, c["l1"])
     opts["mobility_mode"] = getattr(darsia.MobilityMode, c["mob"])
@@ -59,7 +73,7 @@ def run_case(darsia, rng, tid, c):
     w1 = cls(grid, weight, opts)
     D = incidence(grid)
     vol = float(np.prod(h))
-    rhs = vol * (img2.img - img1.img).ravel("F")
+    rhs = vol * (np.asarray(a2, dtype=float) - np.asarray(a1, dtype=float)).reshape(shape).ravel("F")   # from the masses, not from the images' pixel type
     scale = max(1e-300, float(np.abs(rhs).max()))
     nq = int(round(len(darsia.quadrature.gauss_reference_cell(grid.dim, "max")[1]) ** (1.0 / grid.dim)))
 
@@ -243,7 +257,7 @@ def configs(rng, quick, terminals):
         out.append({"shape": list(shape), "h": h, "method": method, "l1": rng.choice(l1s), "mob": rng.choice(mobs), "opts": opts,
                     "mass": rng.choice(["dense", "compact", "single"]), "mseed": rng.randrange(10 ** 6), "fault": fault,
                     "adaptive": method == "bregman" and rng.random() < 0.3, "weight": rng.choice([None, None, 2.0, "het"]),
-                    "second": fault is None and rng.random() < 0.5})
+                    "second": fault is None and rng.random() < 0.5, "imgdtype": rng.choice(["float64", "float64", "float64", "uint8", "uint16", "float32", "int64"])})
     # every fault position once for each method on a fixed small case
     for method in ("newton", "bregman"):
         for f in [None] + [x for x in faults if x is not None and 0 <= x < 6]:
